@@ -688,6 +688,17 @@ func init() {
 			if l.Kind == 3 && t.Other {
 				return t
 			}
+			if l.Kind == 3 && e.zv != nil && e.opt.Zone == 0 && t.Inst == nil && !t.Year0 {
+				// a time of the (UTC) process zone shown in the controller zone: the instant relative to the
+				// anchor day decides the offset in effect, the civil fields are the instant plus that offset
+				c, zv := e.tc, e.zv
+				rel := e.civilRel(st, t)
+				bef := c.BVSlt(rel, e.lo24(zv.Tau))
+				out := e.relToCivil(st, t, c.BVAdd(rel, c.Ite(bef, e.lo24(zv.O1), e.lo24(zv.O2))), "cz")
+				out.UTC, out.Other = c.False, true
+				out.Off, out.Bef, out.Rel = c.Ite(bef, zv.O1, zv.O2), bef, rel
+				return out
+			}
 			panic(unsupported("Time.In between the controller zone and another location"))
 		}
 		if (l.Kind == 1 && t.UTC.IsTrue()) || (l.Kind == 2 && t.UTC.IsFalse()) {
